@@ -278,14 +278,14 @@ impl Project {
         items.push(format!("fn f(x: int32) -> int32 {{\n    {}\n}}", body));
         if l.has_enum {
             let ev = if l.extra_variant { ", C(int32, int32)" } else { "" };
-            let arm = if l.extra_variant { ", C(a, b) => a + b" } else { "" };
+            let arm = if l.extra_variant { ", E::C(a, b) => a + b" } else { "" };
             items.push(format!("enum E {{ A, B(int32){} }}", ev));
-            items.push(format!("fn pick(e: E) -> int32 {{ match e {{ A => {}, B(n) => n + {}{} }} }}", l.c, l.c, arm));
+            items.push(format!("fn pick(e: E) -> int32 {{ match e {{ E::A => {}, E::B(n) => n + {}{} }} }}", l.c, l.c, arm));
         }
         if l.has_generic {
             items.push("fn id[T](x: T) -> T { x }".to_string());
             items.push("enum Opt[T] { Some(T), None }".to_string());
-            items.push("fn unwrap[T](o: Opt[T], d: T) -> T { match o { Some(v) => v, None => d } }".to_string());
+            items.push("fn unwrap[T](o: Opt[T], d: T) -> T { match o { Opt::Some(v) => v, Opt::None => d } }".to_string());
         }
         if l.has_trait {
             let tm = if l.extra_trait_method { " fn extra_m(Self) -> int32;" } else { "" };
